@@ -111,8 +111,8 @@ impl Property for C07 {
     }
     fn budget(&self, tier: Tier) -> Budget {
         match tier {
-            Tier::Quick => Budget { cases: 12_000, min_len: 8, max_len: 300 },
-            Tier::Thorough => Budget { cases: 600_000, min_len: 8, max_len: 400 },
+            Tier::Quick => Budget { cases: 80000, min_len: 8, max_len: 300 },
+            Tier::Thorough => Budget { cases: 1500000, min_len: 8, max_len: 400 },
         }
     }
 
